@@ -296,6 +296,17 @@ func carrierAxioms() (axioms map[string]string, lemmas map[string]string) {
 (check-sat)
 `, inRange("s64", "x"), inRange("s64", "y"), c[1], c[2])
 	}
+	// multiplication is abstract in proof queries (hardOp); the facts about it that contracts need
+	for _, w := range []int{8, 32, 64} {
+		m1 := bvLit(^uint64(0), w)
+		axioms[fmt.Sprintf("MULNEG_%d", w)] = fmt.Sprintf("(forall ((x (_ BitVec %d))) (! (= (go_bvmul%d x %s) (bvneg x)) :pattern ((go_bvmul%d x %s))))", w, w, m1, w, m1)
+		lemmas[fmt.Sprintf("MULNEG_%d", w)] = fmt.Sprintf("(set-logic QF_BV)\n(declare-const x (_ BitVec %d))\n(assert (not (= (bvmul x %s) (bvneg x))))\n(check-sat)\n", w, m1)
+	}
+	// ground facts: 0.0 and 1.0 are the carriers of 0 and 1
+	axioms["F_ZERO"] = "(= (toF64 #x0000000000000000) (_ +zero 11 53))"
+	lemmas["F_ZERO"] = "(set-logic QF_FPBV)\n(assert (not (= ((_ to_fp 11 53) RNE #x0000000000000000) (_ +zero 11 53))))\n(check-sat)\n"
+	axioms["F_ONE"] = "(= (toF64 #x0000000000000001) " + f64Lit(1.0) + ")"
+	lemmas["F_ONE"] = "(set-logic QF_FPBV)\n(assert (not (= ((_ to_fp 11 53) RNE #x0000000000000001) " + f64Lit(1.0) + ")))\n(check-sat)\n"
 	// gc/amd64 behaviour of the implementation-defined out-of-range float->uint32 conversion
 	// (CVTTSD2SQ then truncation). ASSUMPTION, opt-in per unit, not a lemma.
 	axioms["AMD64_u32"] = fmt.Sprintf("(forall ((y (_ BitVec 64))) (! (=> %s (= (fromF_u32 (toF64 y)) ((_ extract 31 0) y))) :pattern ((fromF_u32 (toF64 y)))))", inRange("s64", "y"))
